@@ -62,11 +62,16 @@ STMTS = {
     # other parameter kinds in a neighbour: positional-only, *args, keyword-only, **kwargs (also a look-alike of `f`)
     "s6": "def fetch(a, /, b=2, *args, c=None, **kw):\n    return a",
     "t3": "async def fetch_async(url, *, retries: int = 3) -> str:\n    return url",
+    # the synchronised name bound a second time, after its definition (the register-after-the-fact idiom)
+    "r1": "ConfigClass = ConfigClass",
+    "r2": "set_cli_args = set_cli_args",
+    "r3": "f = f",
 }
 MEMBERS = {
     "m1": "limit: int = 3",
     "m2": "def g(self, epochs):\n    return epochs",
     "m3": "def fetch(self, x, /, y=1):\n    return x",
+    "m4": "f = f",
 }
 
 
@@ -455,6 +460,10 @@ def pre_states(kind, ctx, rnd, rich):
         out.append({"st": "mod", "b": ["s0"], "d": "v2", "a": [], "canon": True, "nl": True})
         out.append({"st": "mod", "b": ["s0", "s3"], "d": "absent", "a": [], "nl": True})
     out.append({"st": "mod", "b": frames[1][0], "d": "v1", "a": frames[1][1], "canon": False, "nl": True})
+    # the name is bound again after the definition: the definition is the first binding
+    rebind = {"class": ["r1"], "argparse": ["r2"], "function": (["C.m4"] if ctx == "method" else ["r3"])}[kind]
+    for d in ("v1", "v2"):
+        out.append({"st": "mod", "b": frames[1][0], "d": d, "a": rebind + (["t1"] if ctx != "method" or kind != "function" else []), "canon": True, "nl": True})
     if kind == "function" and ctx == "method":
         out.append({"st": "mod", "b": ["s1"], "d": "absent", "a": [], "nl": True, "has_class": False})
     for s in out:
@@ -504,6 +513,7 @@ def histories(prop, thorough, rnd):
 
         def special(h):     # rare shapes are always kept: module docstring, unterminated last line, hand-written, class missing
             return any(("s0" in st.get("b", [])) or st.get("nl", True) is not True or st.get("canon", True) is False or st.get("has_class", True) is False
+                       or any(x in ("r1", "r2", "r3", "C.m4") for x in st.get("a", []))
                        for st in h["init"].values())
 
         must = [h for h in hs if special(h)]
